@@ -7,14 +7,15 @@ Require Import Rapid.Generated.GeomTable.
 Import ListNotations.
 Local Open Scope N_scope.
 
-Definition geom_wit (bitlen : nat) (n : nat) : N :=
+Definition geom_wit_of (tab : list (nat * list N)) (bitlen : nat) (n : nat) : N :=
   match n with
   | O | S O => 0
-  | S (S i) => match find (fun p => Nat.eqb (fst p) bitlen) geom_tab with
+  | S (S i) => match find (fun p => Nat.eqb (fst p) bitlen) tab with
                | Some (_, thr) => nth i thr 0
                | None => 0
                end
   end.
+Definition geom_wit : nat -> nat -> N := geom_wit_of geom_tab.
 
 (* the witness word for a value *)
 Definition uint_wit (max v : N) : N := geom_wit (len64 max) (Nat.max 1 (len64 v)).
